@@ -1,7 +1,88 @@
-(* C12 — property theorems only (see DESIGN.md); each closed by [exact] of a lemma proved in Zip/Proofs*.v. *)
-From Verif.Base Require Import Bytes PathClean.
-From Verif.Zip Require Import Check ProofsClass.
+(* C12 — Extraction enforces every zip restriction and never writes outside its directory.
+   Property theorems only; each is closed by [exact] of a lemma proved in Zip/Proofs*.v.
 
-Theorem C12_placeholder_same_lists_refl : forall a, same_lists a a.
-Proof. exact same_lists_refl. Qed.
-Print Assumptions C12_placeholder_same_lists_refl.
+   Vocabulary (definitions in Zip/Check.v, Zip/Fs.v, Zip/Unzip.v, Zip/ProofsZip.v):
+     check_zip mp mv zipsize entries = (report, error class)      zip.CheckZip / checkZip
+     unzip fs dir mp mv zipsize entries = (outcome, events)       zip.Unzip; events are the
+                                                                  file-system writes in order
+     entry_rest prefix e      e.Name without the prefix "<mp>@<mv>/"
+     entry_name n / entry_is_dir n    n without a trailing '/', and whether it had one
+     entry_items prefix e     the paths collisionChecker registers for e: the entry's path and
+                              every ancestor directory of it, as (path, is-directory) pairs
+     file_entries prefix es   the entries that are files (non-empty rest, no trailing '/')
+     abs_path ds              "/" ++ ds1 ++ "/" ++ ... ++ dsn
+     good_elem e              e is non-empty, has no '/', and is neither "." nor ".." *)
+From Verif.Base Require Import Bytes PathClean.
+From Verif.Gen Require Import GenConsts.
+From Verif.Module Require Import Path.
+From Verif.Zip Require Import Check Fs Unzip ProofsPath ProofsColl ProofsZip ProofsUnzip.
+
+(* If the zip check rejects the archive, Unzip fails and performs no file-system write. *)
+Theorem C12_unzip_validates_before_writing :
+  forall (s : fs) (dir mp mv : str) (zipsize : Z) (entries : list entry) (cf : checked) (e : zerr),
+    check_zip mp mv zipsize entries = (cf, Some e) ->
+    exists k, unzip s dir mp mv zipsize entries = (UzErr k, []).
+Proof. exact unzip_validates_before_writing. Qed.
+Print Assumptions C12_unzip_validates_before_writing.
+
+(* Whether Unzip succeeds or fails, for a clean absolute target directory dir (other than
+   "/"), the events split into the directory creations of MkdirAll(dir) (dir itself and its
+   missing ancestors; none when dir exists) and events whose path is dir ++ "/" ++ rest with
+   rest non-empty: nothing is created or written outside dir. *)
+Theorem C12_unzip_confined :
+  forall (s : fs) (dir mp mv : str) (zipsize : Z) (entries : list entry) (r : uz_result) (evs : list event),
+    (exists ds, ds <> [] /\ Forall good_elem ds /\ dir = abs_path ds) ->
+    unzip s dir mp mv zipsize entries = (r, evs) ->
+    exists evs0 evs1, evs = evs0 ++ evs1 /\
+      (evs0 = [] \/ mkdir_all (length dir) s dir = MkOk evs0) /\
+      Forall (fun ev => exists rest, rest <> [] /\ ev_path ev = dir ++ 47 :: rest) evs1.
+Proof. exact unzip_confined. Qed.
+Print Assumptions C12_unzip_confined.
+
+(* the fact behind confinement: an accepted file path joins below a clean absolute directory
+   without escaping it *)
+Theorem C12_check_file_path_no_escape :
+  forall dir p,
+    (exists ds, ds <> [] /\ Forall good_elem ds /\ dir = abs_path ds) ->
+    check_file_path p = None ->
+    filepath_join dir p = dir ++ 47 :: p.
+Proof. exact check_file_path_no_escape. Qed.
+Print Assumptions C12_check_file_path_no_escape.
+
+(* Acceptance by the zip check implies every restriction of the property statement: the module
+   path/version are valid and canonical, the archive file is within MaxZipFile, every entry
+   has the module prefix and (unless it is the prefix alone) a path accepted by
+   module.CheckFilePath that is clean; any two registered paths (entries and their ancestor
+   directories) that are equal under case folding are the same directory (so: no two files
+   equal under folding, no file that is also a directory); a file whose base name folds to
+   go.mod is exactly "go.mod" at the root; declared sizes are non-negative, go.mod and LICENSE
+   are within their limits, the total is within MaxZipFile; and Valid lists the file entries. *)
+Theorem C12_checkzip_accepts_spec :
+  forall (mp mv : str) (zipsize : Z) (es : list entry) (cf : checked),
+    check_zip mp mv zipsize es = (cf, None) ->
+    let prefix := zip_prefix mp mv in
+    check_module mp mv = None /\ zipsize <= zip_MaxZipFile /\
+    Forall (fun e =>
+              has_prefix (e_name e) prefix = true /\
+              (entry_rest prefix e = [] \/
+               (let name := entry_name (entry_rest prefix e) in
+                check_file_path name = None /\ path_clean name = name /\
+                (entry_is_dir (entry_rest prefix e) = false ->
+                   (equal_fold (path_base name) go_mod = true -> name = go_mod) /\
+                   0 <= to_int64 (e_usize e) /\
+                   (name = go_mod -> to_int64 (e_usize e) <= zip_MaxGoMod) /\
+                   (name = B "LICENSE" -> to_int64 (e_usize e) <= zip_MaxLICENSE))))) es /\
+    ForallOrdPairs (fun a b : str * bool =>
+                      str_to_fold (fst a) = str_to_fold (fst b) ->
+                      fst a = fst b /\ snd a = true /\ snd b = true)
+                   (flat_map (entry_items prefix) es) /\
+    0 <= total_size (file_entries prefix es) <= zip_MaxZipFile /\
+    c_valid cf = map e_name (file_entries prefix es) /\ c_invalid cf = [] /\ c_sizeerr cf = false.
+Proof. exact checkzip_accepts_spec. Qed.
+Print Assumptions C12_checkzip_accepts_spec.
+
+(* the fuel of the collision checker never runs out in checkZip *)
+Theorem C12_check_zip_no_fuel :
+  forall mp mv zipsize es, c_fuel (fst (check_zip mp mv zipsize es)) = false.
+Proof. exact check_zip_no_fuel. Qed.
+Print Assumptions C12_check_zip_no_fuel.
